@@ -192,11 +192,52 @@ End Batch.
 (* ---- shared-memory pickling -------------------------------------------------------------------------
    An object is a tree; array payloads travel out of band.  The pickler stores each payload in a block
    that may be longer than the payload (page rounding), recording the payload's length; a zero-length
-   payload gets no block.  pickle.loads consumes the buffers in the order the pickler produced them. *)
+   payload gets no block.  pickle.loads consumes the buffers in the order the pickler produced them.
 
-Inductive tree := TBuf (b : list nat) | TAtom (a : Z) | TNode (ts : list tree).
-Inductive etree := EBuf | EAtom (a : Z) | ENode (ts : list etree).       (* the in-band pickle *)
+   Arrays.  SHMPickler leaves an ndarray to NumPy's own protocol-5 reduction (generated: the last rule of
+   reducer_dispatch is ROwnReduction), whose contract is modelled here and checked against every observed
+   block: an array A that is an axis permutation of a C-ordered memory block M (A = M.transpose(p): axis i of
+   A is axis p[i] of M; C order: p = identity, Fortran order: p = reversed axes) travels OUT OF BAND as the
+   bytes of M together with (dtype, shape, p) and is rebuilt as reshape(memory shape).transpose(p); every
+   other array (strided, negative or zero strides, dtypes without a buffer export) travels IN BAND as a
+   C-ordered copy of its elements.  `elems` are the elements in index (C) order, `isz` bytes each. *)
+
+Inductive transport := OutOfBand (p q : list nat) | InBand.     (* q = the inverse permutation of p *)
+
+Inductive tree :=
+| TBuf (b : list nat)
+| TArr (tr : transport) (isz : nat) (shape : list nat) (elems : list (list nat))
+| TAtom (a : Z)
+| TNode (ts : list tree).
+Inductive etree :=                                                         (* the in-band pickle *)
+| EBuf
+| EArrOut (p q : list nat) (isz : nat) (shape : list nat)
+| EArrIn (isz : nat) (shape : list nat) (bytes : list nat)
+| EAtom (a : Z)
+| ENode (ts : list etree).
 Definition block : Type := option (list nat) * nat.                        (* (shm, nbytes) *)
+
+(* mixed-radix positions, C order (last axis fastest) *)
+Definition prod (s : list nat) : nat := fold_right Nat.mul 1 s.
+Fixpoint unravel (s : list nat) (k : nat) : list nat :=
+  match s with [] => [] | _ :: s' => (k / prod s') :: unravel s' (k mod prod s') end.
+Fixpoint ravel (s idx : list nat) : nat :=
+  match s, idx with _ :: s', i :: idx' => i * prod s' + ravel s' idx' | _, _ => 0 end.
+Definition gather (p l : list nat) : list nat := map (fun i => nth i l 0) p.
+
+(* A = M.transpose(p): index idx of A is index (gather q idx) of M, M's shape is gather q (shape of A) *)
+Definition mem_shape (q s : list nat) : list nat := gather q s.
+Definition sigma (p q s : list nat) (k : nat) : nat := ravel s (gather p (unravel (mem_shape q s) k)).   (* memory position -> index position *)
+Definition tau (q s : list nat) (j : nat) : nat := ravel (mem_shape q s) (gather q (unravel s j)).       (* index position -> memory position *)
+
+Definition to_memory (p q s : list nat) (elems : list (list nat)) : list (list nat) :=
+  map (fun k => nth (sigma p q s k) elems []) (seq 0 (prod (mem_shape q s))).
+Definition from_memory (q s : list nat) (mem : list (list nat)) : list (list nat) :=
+  map (fun j => nth (tau q s j) mem []) (seq 0 (prod s)).
+
+(* n elements of isz bytes each from a flat buffer *)
+Fixpoint chunk (isz n : nat) (l : list nat) : list (list nat) :=
+  match n with 0 => [] | S n' => firstn isz l :: chunk isz n' (skipn isz l) end.
 
 (* _buffer_cb: pad i = what the i-th block holds beyond the payload *)
 Definition store (pad : list nat) (b : list nat) : block :=
@@ -205,6 +246,8 @@ Definition store (pad : list nat) (b : list nat) : block :=
 Fixpoint encode (pad : nat -> list nat) (t : tree) (next : nat) : etree * list block * nat :=
   match t with
   | TBuf b => (EBuf, [store (pad next) b], S next)
+  | TArr (OutOfBand p q) isz s elems => (EArrOut p q isz s, [store (pad next) (List.concat (to_memory p q s elems))], S next)
+  | TArr InBand isz s elems => (EArrIn isz s (List.concat elems), [], next)
   | TAtom a => (EAtom a, [], next)
   | TNode ts =>
       let fix go (l : list tree) (n : nat) : list etree * list block * nat :=
@@ -226,9 +269,18 @@ Definition view (sl : slice_kind) (b : block) : list nat :=
   | (Some data, n) => match sl with SliceRecorded => firstn n data | WholeBuffer => data end
   end.
 
+Definition identity_perm (n : nat) : list nat := seq 0 n.
+
 Fixpoint decode (e : etree) (bufs : list (list nat)) : option (tree * list (list nat)) :=
   match e with
   | EBuf => match bufs with b :: r => Some (TBuf b, r) | [] => None end
+  | EArrOut p q isz s =>
+      match bufs with
+      | b :: r => Some (TArr (OutOfBand p q) isz s (from_memory q s (chunk isz (prod (mem_shape q s)) b)), r)
+      | [] => None
+      end
+  | EArrIn isz s bytes =>
+      Some (TArr (OutOfBand (identity_perm (List.length s)) (identity_perm (List.length s))) isz s (chunk isz (prod s) bytes), bufs)
   | EAtom a => Some (TAtom a, bufs)
   | ENode es =>
       let fix go (l : list etree) (bs : list (list nat)) : option (list tree * list (list nat)) :=
@@ -244,6 +296,36 @@ Fixpoint decode (e : etree) (bufs : list (list nat)) : option (tree * list (list
 
 Definition shm_deserialize (sl : slice_kind) (d : etree * list block) : option tree :=
   match decode (fst d) (map (view sl) (snd d)) with Some (t, []) => Some t | _ => None end.
+
+(* what must arrive: the same tree; an array that travelled in band arrives as a C-ordered array *)
+Fixpoint arrived (t : tree) : tree :=
+  match t with
+  | TArr InBand isz s elems => TArr (OutOfBand (identity_perm (List.length s)) (identity_perm (List.length s))) isz s elems
+  | TNode ts => TNode (map arrived ts)
+  | _ => t
+  end.
+(* the content of a tree: everything but how the arrays lie in memory *)
+Fixpoint contents (t : tree) : tree :=
+  match t with
+  | TArr _ isz s elems => TArr InBand isz s elems
+  | TNode ts => TNode (map contents ts)
+  | _ => t
+  end.
+
+(* well-formed arrays: one element per index, isz bytes each, p and q inverse permutations of the axes *)
+Definition perm_okb (n : nat) (p q : list nat) : bool :=
+  Nat.eqb (List.length p) n && Nat.eqb (List.length q) n &&
+  forallb (fun m => Nat.ltb (nth m p 0) n && Nat.ltb (nth m q 0) n &&
+                    Nat.eqb (nth (nth m q 0) p 0) m && Nat.eqb (nth (nth m p 0) q 0) m) (seq 0 n).
+Definition arr_okb (tr : transport) (isz : nat) (s : list nat) (elems : list (list nat)) : bool :=
+  Nat.eqb (List.length elems) (prod s) && forallb (fun e => Nat.eqb (List.length e) isz) elems &&
+  match tr with OutOfBand p q => perm_okb (List.length s) p q | InBand => true end.
+Fixpoint wf_tree (t : tree) : bool :=
+  match t with
+  | TArr tr isz s elems => arr_okb tr isz s elems
+  | TNode ts => forallb wf_tree ts
+  | _ => true
+  end.
 
 (* ---- booleans for the correspondence cases ----------------------------------------------------------- *)
 
@@ -275,9 +357,19 @@ Fixpoint shapes_eqb (a b : list (option nat * nat)) : bool :=
   | _, _ => false
   end.
 
+Fixpoint llnat_eqb (a b : list (list nat)) : bool :=
+  match a, b with [], [] => true | x :: a', y :: b' => lnat_eqb x y && llnat_eqb a' b' | _, _ => false end.
+Definition transport_eqb (a b : transport) : bool :=
+  match a, b with
+  | OutOfBand p q, OutOfBand p' q' => lnat_eqb p p' && lnat_eqb q q'
+  | InBand, InBand => true
+  | _, _ => false
+  end.
+
 Fixpoint tree_eqb (a b : tree) : bool :=
   match a, b with
   | TBuf x, TBuf y => lnat_eqb x y
+  | TArr tr k s es, TArr tr' k' s' es' => transport_eqb tr tr' && Nat.eqb k k' && lnat_eqb s s' && llnat_eqb es es'
   | TAtom x, TAtom y => Z.eqb x y
   | TNode xs, TNode ys =>
       (fix go (l m : list tree) : bool :=
@@ -285,12 +377,16 @@ Fixpoint tree_eqb (a b : tree) : bool :=
   | _, _ => false
   end.
 
-(* the observed block sizes are the model's for the same paddings, and the round trip is the identity *)
-Definition agree_shm (t : tree) (pads : list nat) (observed : list (option nat * nat)) (roundtrip_ok : bool) : bool :=
+(* the observed blocks (sizes and the payload bytes they hold) are the model's for the same paddings, and
+   the round trip returns the content (roundtrip_ok: the content hashes agreed) *)
+Definition agree_shm (t : tree) (pads : list nat) (observed : list (option nat * nat)) (payloads : list (list nat))
+           (roundtrip_ok : bool) : bool :=
   let pad := fun i => repeat 0 (nth i pads 0) in
   let d := shm_serialize pad t in
+  wf_tree t &&
   shapes_eqb (map block_shape (snd d)) observed &&
-  Bool.eqb (match shm_deserialize shm_slice d with Some t' => tree_eqb t' t | None => false end) roundtrip_ok.
+  llnat_eqb (map (view SliceRecorded) (snd d)) payloads &&
+  Bool.eqb (match shm_deserialize shm_slice d with Some t' => tree_eqb (contents t') (contents t) | None => false end) roundtrip_ok.
 
 (* one observed batch run: the pipeline as a table, the requests, and the collection that came back
    (None: the run raised) *)
